@@ -1511,6 +1511,7 @@ def main():
 			if r["reproduced"]:
 				bad.append(r)
 		out["translator_validation"] = dict(histories=len(ex.samples), disagreements=bad[:3])
+		out["sample_histories"] = [" ".join(concrete_ops(h, kv + [0x41 + i for i in range(8)])) for h, kv in ex.samples[:5]]
 		for v in ex.violations:
 			kv = list(v.get("keys") or [])
 			while len(kv) < 8:
